@@ -7,7 +7,7 @@ use crate::verif_spec::src::Src;
 fn check_user_data(data: &[u8]) -> bool {
     let got = parse_userdata_chunk(data);
     let decoded_ok = got.is_ok();
-    match (got, fmt::user_data(data)) {
+    match (&got, fmt::user_data(data)) {
         (Ok(u), Some(w)) => {
             match (&u.text, w.text) {
                 (None, None) => {}
@@ -20,24 +20,29 @@ fn check_user_data(data: &[u8]) -> bool {
         (Ok(_), None) => assert!(false, "decoder accepted a user data chunk the format rejects"),
         (Err(_), Some(_)) => assert!(false, "decoder rejected a well-formed user data chunk"),
     }
+    core::mem::forget(got); // dropping io::Error (bit-packed pointer repr) is very expensive for CBMC
     decoded_ok
 }
 
 macro_rules! ud_shape {
-    ($hname:ident, $n:expr, $u:expr, $can_ok:expr) => {
+    ($hname:ident, $n:expr, $u:expr, [$($len:expr),*]) => {
         crate::verif_harness! {
-            /// parse_userdata_chunk on every payload of exactly $n bytes.
+            /// parse_userdata_chunk on every payload of exactly $n bytes whose bytes 4..6 (the text length when
+            /// flag bit 0 is set) are one of the listed values; flags and everything else symbolic.
             #[kani::stub(std::fmt::format, crate::verif_spec::stubs::format_stub)]
             #[kani::unwind($u)]
             fn $hname(s) {
-                let d: [u8; $n] = s.bytes();
-                let ok = check_user_data(&d);
-                crate::vcover!(ok || !$can_ok, "a well-formed payload of this size decodes");
-                crate::vcover!(!ok, "a malformed payload of this size is rejected");
+                let mut d: [u8; $n] = s.bytes();
+                $(
+                    crate::verif_spec::pin16(&mut d, 4, $len);
+                    let ok = check_user_data(&d);
+                    crate::vcover!(ok, "a well-formed payload decodes");
+                    crate::vcover!(!ok || $n < 6, "a malformed payload is rejected");
+                )*
             }
         }
     };
 }
-ud_shape!(k_user_data_4, 4, 3, true);
-ud_shape!(k_user_data_8, 8, 5, true);
-ud_shape!(k_user_data_12, 12, 9, true);
+ud_shape!(k_user_data_4, 4, 3, [0]);
+ud_shape!(k_user_data_8, 8, 4, [0, 2, 3]);
+ud_shape!(k_user_data_12, 12, 5, [2, 0, 7]);
